@@ -22,7 +22,9 @@ model-checked and emits (allocation, module, k) records; each becomes an Allocat
 document (or none: get_netlist derives one) that go through rect_io.get_alloc / get_netlist / select_box, and the
 improvement loop of rect.main() (`dif = last`, `while last[0] > 0 and q1 > quality`) re-implemented around the real
 rect.solve.  The documents have two or three modules and OVER-occupied cells (sum of the ratios of a cell > 1); the
-document written is parsed back independently of FRAME and TLC judges against the ratios AS WRITTEN.  TLC judges the
+document is written in varying surface forms (integral ratios as integers `M1: 1`, integer rectangle numbers,
+module order, flow / block style, explicit depth, file name or YAML text; a module missing from a cell or present with
+0), parsed back independently of FRAME, and TLC judges against the ratios AS WRITTEN.  TLC judges the
 InputProblem select_box produced (same cells, occupancy = ratio, disjoint) and the
 end-to-end contract (a module allocated with ratio 1 exactly on a k-STOG gets exactly that shape, zero error).
 
@@ -56,7 +58,7 @@ VACUOUS = -10 ** 8          # a bound every shape meets: the cost constraint is 
 RATIO = 2.0                 # minimum-error mode (rect.py --minerr, the default)
 MAX_MODELS = 40000
 MAX_LOOP = 5
-PUB = ("kind", "cells", "k", "den", "emb", "path", "plan", "proc", "alloc", "mod", "netlist")     # what a replay file holds
+PUB = ("kind", "cells", "k", "den", "emb", "path", "plan", "proc", "alloc", "mod", "netlist", "form")     # what a replay file holds
 # carrier.factor per embedding (main() uses 10000): chosen so that the integer cell weights neither vanish (tiny)
 # nor overflow TLC's 32-bit integers (big)
 FACTOR = {"int": 10000, "flt": 10000, "half": 10000, "dec": 10000, "third": 10000, "off": 10000,
@@ -276,6 +278,13 @@ def run_alloc_case(case):
     emb = EMBEDDINGS[case["emb"]]
     den = case["den"]
     d = tempfile.mkdtemp(prefix="c08alloc")
+    # Surface form of the document (bits of case["form"]): 1 = integral ratios written as integers (M1: 1, M2: 0),
+    # 2 = integral rectangle numbers written as integers, 4 = modules of a cell in reverse order, 8 = block style
+    # instead of flow style, 16 = the YAML TEXT is handed to rect_io instead of a file name, 32 = explicit depth 0.
+    form = case.get("form", 0)
+
+    def num(v, as_int):
+        return repr(int(v)) if as_int and float(v).is_integer() else repr(float(v))
     lines, areas, mx, my = [], {}, {}, {}
     for c in case["alloc"]:
         cx, cy, w, h = emb.rect(c)
@@ -285,15 +294,25 @@ def run_alloc_case(case):
             areas[name] = areas.get(name, 0.0) + a
             mx[name] = mx.get(name, 0.0) + a * cx
             my[name] = my.get(name, 0.0) + a * cy
-        lines.append("- [[%r, %r, %r, %r], {%s}]" % (cx, cy, w, h, ", ".join(f"{k}: {v!r}" for k, v in occ.items())))
+        items = [(k, num(v, form & 1)) for k, v in occ.items()]
+        if form & 4:
+            items.reverse()
+        rect = "[%s]" % ", ".join(num(v, form & 2) for v in (cx, cy, w, h))
+        depth = ", 0" if form & 32 else ""
+        if form & 8 and items:
+            lines.append("- - %s\n  - %s%s" % (rect, "\n    ".join(f"{k}: {v}" for k, v in items), "\n  - 0" if form & 32 else ""))
+        else:
+            lines.append("- [%s, {%s}%s]" % (rect, ", ".join(f"{k}: {v}" for k, v in items), depth))
     af = os.path.join(d, "alloc.yaml")
+    text = "\n".join(lines) + "\n"
     with open(af, "w") as f:
-        f.write("\n".join(lines) + "\n")
+        f.write(text)
     # the allocation AS WRITTEN: the document is parsed back independently of FRAME (plain YAML), pulled back to the
     # lattice, and THAT is what TLC judges the front end and the end-to-end contract against
     from ruamel.yaml import YAML        # plain YAML loader (no FRAME code involved)
     written = []
-    for rect, occ in YAML(typ="safe").load(open(af).read()):
+    for item in YAML(typ="safe").load(open(af).read()):
+        rect, occ = item[0], item[1]
         r = emb.back_rect(*[float(v) for v in rect])
         rat = []
         for m in range(len(case["alloc"][0][6])):
@@ -313,7 +332,7 @@ def run_alloc_case(case):
         with open(nf, "w") as f:
             f.write("Modules: {\n" + ",\n".join(mods) + "\n}\nNets: []\n")
     obs = {"events": [], "complete": 0, "alloc_written": written}
-    st, fe = _fresh_child(_front_end, {"alloc_file": af, "net_file": nf}, 300)
+    st, fe = _fresh_child(_front_end, {"alloc_file": text if form & 16 else af, "net_file": nf}, 300)
     if st == "harness_error":
         # an exception inside get_alloc / get_netlist on a valid allocation document is an observation, not a harness bug
         obs["events"].append({"bound": 1, "exc": "front end: " + str(fe).splitlines()[0][:300]})
@@ -380,7 +399,7 @@ def random_alloc_cases(rng: random.Random, n: int) -> list[dict]:
         cases.append({"kind": "alloc", "alloc": alloc, "mod": 1, "k": len(shape), "den": 10,
                       "cells": [c[:4] + [max(c[6][0], 0)] for c in alloc], "emb": rng.choice(ALL), "path": "select_box",
                       "plan": ["alloc", 1], "netlist": netlist, "stog": 1, "over_occupied_cells": over,
-                      "proc": rng.choice(["fresh", "same"])})
+                      "proc": rng.choice(["fresh", "same"]), "form": rng.randrange(64)})
     return cases
 
 
@@ -403,7 +422,8 @@ def alloc_cases(gen: list[dict], rng: random.Random, n_yes: int = 700, n_no: int
             alloc = [c[:6] + [[-1 if n == 0 else n for n in c[6]]] for c in alloc]
         cases.append({"kind": "alloc", "alloc": alloc, "mod": g["mod"], "cells": g["cells"], "k": g["k"], "den": g["den"],
                       "emb": ALL[i % len(ALL)], "path": "select_box", "plan": ["alloc", 1], "netlist": netlist,
-                      "stog": g["stog"], "proc": "same" if i % 4 in (1, 2) else "fresh"})
+                      "stog": g["stog"], "proc": "same" if i % 4 in (1, 2) else "fresh",
+                      "form": (i * 7 + 3) % 64})
     return cases
 
 
@@ -674,6 +694,9 @@ def decide(ctx: Ctx, cases: list[dict]):
             "front_end_clauses_judged": len(al),
             "end_to_end_contract_applied": sum(1 for k, t in al if own(k).get("stog") == 1 and t["complete"] == 1),
             "module_region_not_a_kstog": sum(1 for k, _ in al if own(k).get("stog") == 0),
+            "documents_with_integer_ratios": sum(1 for k, _ in al if own(k).get("form", 0) & 1),
+            "documents_in_block_style": sum(1 for k, _ in al if own(k).get("form", 0) & 8),
+            "documents_passed_as_text": sum(1 for k, _ in al if own(k).get("form", 0) & 16),
             "documents_with_over_occupied_cells": sum(
                 1 for _, t in al if any(sum(v for v in c[6] if v > 0) > t["den"] for c in t["alloc"])),
             "embeddings": sorted({own(k)["emb"] for k, _ in al}),
